@@ -232,6 +232,58 @@ fn call_source(rng: &mut Rng, m: &Model) -> Expr {
   }
 }
 
+/// `(x, 2)`, `{a: x, b: 2}`, `{"a": x}`, `[a]`, `[a b]` over the session's variables; kinds follow the run's classes.
+fn built_source(rng: &mut Rng, k: &Knobs, m: &Model) -> Option<Expr> {
+  let scalars = names_where(m, |b| b.v.is_scalar());
+  let f64s = names_where(m, |b| matches!(b.v, SV::F64(_)));
+  let mats = names_where(m, |b| b.v.is_matrix());
+  let rows = names_where(m, |b| matches!(&b.v, SV::Mat(ek, 1, _, _) if ek == "f64"));
+  let mut kinds: Vec<&str> = vec![];
+  if k.classes.iter().any(|c| c == "tuple") && (!scalars.is_empty() || !mats.is_empty()) { kinds.push("tuple"); }
+  if k.classes.iter().any(|c| c == "record") && !scalars.is_empty() { kinds.push("record"); }
+  if k.classes.iter().any(|c| c == "map") && !f64s.is_empty() { kinds.push("map"); }
+  if k.classes.iter().any(|c| c == "matrix") && (!mats.is_empty() || !f64s.is_empty()) { kinds.push("mat"); }
+  if k.classes.iter().any(|c| c == "table") && !f64s.is_empty() { kinds.push("table"); }
+  if kinds.is_empty() { return None; }
+  let kind = *rng.pick(&kinds);
+  let var_of = |rng: &mut Rng, pool: &Vec<&String>| BuiltElem::Var((*rng.pick(pool)).clone());
+  let els: Vec<BuiltElem> = match kind {
+    "tuple" => {
+      let pool: Vec<&String> = scalars.iter().chain(mats.iter()).cloned().collect();
+      let mut v = vec![var_of(rng, &pool)];
+      for _ in 0..rng.usize(3) { if rng.chance(1, 2) { v.push(var_of(rng, &pool)); } else { v.push(BuiltElem::Lit(gen_scalar(rng, "f64"))); } }
+      if v.len() == 1 { v.push(BuiltElem::Lit(gen_scalar(rng, "f64"))); }
+      v
+    }
+    "record" => {
+      let mut v = vec![var_of(rng, &scalars)];
+      for _ in 0..rng.usize(3) { if rng.chance(1, 2) { v.push(var_of(rng, &scalars)); } else { let kk = rng.pick(&k.kinds).clone(); v.push(BuiltElem::Lit(gen_scalar(rng, &kk))); } }
+      v
+    }
+    "table" => {
+      let rows = 1 + rng.usize(3);
+      let mut v: Vec<BuiltElem> = (0..rows * 2).map(|_| if rng.chance(1, 2) { var_of(rng, &f64s) } else { BuiltElem::Lit(gen_scalar(rng, "f64")) }).collect();
+      if !v.iter().any(|e| matches!(e, BuiltElem::Var(_))) { v[0] = var_of(rng, &f64s); }
+      v
+    }
+    "map" => {
+      let mut v = vec![var_of(rng, &f64s)];
+      for _ in 0..rng.usize(3) { if rng.chance(1, 2) { v.push(var_of(rng, &f64s)); } else { v.push(BuiltElem::Lit(gen_scalar(rng, "f64"))); } }
+      v
+    }
+    _ => {
+      if !mats.is_empty() && rng.chance(1, 2) { vec![var_of(rng, &mats)] } else {
+        let pool: Vec<&String> = f64s.iter().chain(rows.iter()).cloned().collect();
+        if pool.is_empty() { return None; }
+        let mut v = vec![var_of(rng, &pool)];
+        for _ in 0..(1 + rng.usize(2)) { if rng.chance(2, 3) { v.push(var_of(rng, &pool)); } else { v.push(BuiltElem::Lit(gen_scalar(rng, "f64"))); } }
+        v
+      }
+    }
+  };
+  Some(Expr::Built(kind.to_string(), els))
+}
+
 /// A source expression of the given element kind (scalar), possibly through a variable.
 fn scalar_source(rng: &mut Rng, m: &Model, kind: &str) -> Expr {
   if kind == "f64" && FUNCTIONS_ON.with(|f| f.get()) && rng.chance(1, 4) { return call_source(rng, m); }
@@ -343,6 +395,10 @@ fn gen_define(rng: &mut Rng, k: &Knobs, m: &Model, fault: bool) -> Op {
       1 => Op::Define { name, mutable, annot: Some("u8".into()), e: Expr::Lit(SV::Str("abc".into())) },
       _ => Op::Define { name, mutable, annot: Some("[f64]:1,3".into()), e: Expr::Lit(SV::Mat("f64".into(), 1, 2, vec![SV::f64(1.0), SV::f64(2.0)])) },
     };
+  }
+  // a container written with variables among its elements (it must hold their values, not the variables)
+  if !defined.is_empty() && rng.chance(1, 8) {
+    if let Some(e) = built_source(rng, k, m) { return Op::Define { name, mutable, annot: None, e }; }
   }
   // sources: literal | another variable (aliasing candidates) | expression over a variable | field / element
   let choice = rng.below(10);
